@@ -106,13 +106,15 @@ class CEnd(wire.ClientEnd):
         super().__init__(loop, connect_script=[('ok', delay)] if delay else None, tap=True)
         self.conditions = conditions or (lambda: {})
 
-    async def _create_connection(self):
+    async def attempt(self, factory):
+        # one connection attempt, entered from the asyncio boundary (wire.hook_loop_connections) or from the
+        # channel's own connect coroutine; `factory` makes the protocol object (role-based: wire.protocol_factory_of)
         self.connects += 1
         kind, delay = self.connect_script.pop(0) if self.connect_script else ('ok', 0)
         if delay:
             await asyncio.sleep(delay)
         cond = self.conditions()
-        proto = self.channel._protocol_factory()
+        proto = factory()
         peer = P.Peer(client_side=False, settings=cond.get('settings'))
         tr = wire.MemTransport(proto, self.loop, on_write=peer.receive)
         self.taps.append(tap_transport(tr, self.loop.time))
